@@ -5,7 +5,8 @@ Decided, on the public anchor TimeZoneRef::find_local_time_type:
             type (&[Transition], i64) -> Result<usize, usize> called with the zone's own table): under Ok(x) the entry
             read afterwards is transitions[x]; under Err(x), x >= 1, it is transitions[x-1]; under Err(0) no entry is read
             and the type index is 0 (the zone's first type).  In each box the local time type handed out is
-            local_time_types[<that entry's type index>].
+            local_time_types[<that entry's type index>].  A search that provably never
+            returns one of the three cases fails the box (the lookup has no other way to serve those instants).
   LAST      the search is entered only with key < (time of the last table entry) — strictly, so an instant *at* the last
             transition goes to the trailing rule / the NoAvailableLocalTimeType error, and every key the search sees has a
             successor in the table.
@@ -54,6 +55,7 @@ class Obs:
         self.tr_reads = []
         self.ty_reads = []
         self.forced = False
+        self.vacuous = False
 
     def is_search(self, I, S, callee, args):
         body = callee["body"]
@@ -112,6 +114,7 @@ class Obs:
                 self.tr_reads.append({
                     "after": bool(self.search_seen), "index": idx, "off": kw["off"], "from_end": kw.get("from_end"),
                     "term": S.term(idx) if idx is not None else (Lin.const(kw["off"]) if kw["off"] is not None else None),
+                    "xterm": S.term(self.search_payload) if self.search_payload is not None else None,
                     "lti": (v.fields[self.fld["lti"]].sym if isinstance(v, Struct) and isinstance(v.fields[self.fld["lti"]], Scalar) else None),
                 })
             if ("types",) in prov:
@@ -120,7 +123,7 @@ class Obs:
                                       "term": S.term(idx) if idx is not None else (Lin.const(kw["off"]) if kw["off"] is not None and kw.get("from_end") is None else None)})
 
     def override(self, I, R, callee, args, ret):
-        if self.force is None or self.in_search != 1:
+        if self.force is None or self.force[0] == "none" or self.in_search != 1:
             return ret
         # called while the search frame is still counted: in_search == 1 means "the search itself is returning"
         if not isinstance(ret, Enum) or self.f.ty_canon(callee["body"]["locals"][0]["ty"]) != SEARCH_RET:
@@ -128,6 +131,7 @@ class Obs:
         k, sub = self.force
         if k not in ret.variants or not isinstance(ret.variants[k][0], Scalar):
             R.dead = True
+            self.vacuous = True
             return ret
         d = ret.when.get(k)
         if d is not None:
@@ -139,6 +143,8 @@ class Obs:
             R.refine(x, D.point(0))
         self.search_payload = x
         self.forced = True
+        if R.dead:
+            self.vacuous = True
         return Enum(ret.path, {k: ret.variants[k]}, {})
 
 
@@ -190,6 +196,12 @@ def check(run, tier):
         # ---- INDEX boxes
         for tag, force, want in (("Ok(x)", ("Ok", None), 0), ("Err(x), x>=1", ("Err", "pos"), -1), ("Err(0)", ("Err", "zero"), None)):
             I, o, R, frame, args = run_box(f, root, fld, force)
+            if o.vacuous and o.search_seen:
+                # the search provably never returns this case, although the lookup depends on it
+                # (Ok: the instant of a transition; Err(x>=1): between two; Err(0): before the first)
+                verdict("INDEX", tag, False, "the binary search over the transition table provably never returns this case, which the lookup needs (Ok(x): an instant equal to a table time; Err(x), x>=1: between two entries; Err(0): before the first entry):", {"case": tag})
+                run.obligation(False)
+                continue
             if not o.forced or o.search_payload is None:
                 verdict("INDEX", tag, False, "the binary search over the zone's transition table was not found, or cannot return this case:", {"searches seen": o.search_seen})
                 continue
@@ -203,7 +215,14 @@ def check(run, tier):
                 verdict("INDEX", tag + " type", ok2, "before the first transition the type must be local_time_types[0]:", {"type indices": [lin_s(r["term"]) for r in tys]})
             else:
                 exp = Lin({x: 1}, want)
-                ok = bool(after) and all(r["term"] is not None and r["term"].t == exp.t and r["term"].c == exp.c for r in after)
+
+                def same(r):
+                    if r["term"] is None or r["xterm"] is None:
+                        return False
+                    e2 = r["xterm"].add(Lin.const(want))
+                    return r["term"].t == e2.t and r["term"].c == e2.c
+
+                ok = bool(after) and all(same(r) for r in after)
                 verdict("INDEX", tag, ok, "the table entry read after the search must be transitions[x%s]:" % ("" if want == 0 else "-1"), {"expected": lin_s(exp), "table reads after the search": [lin_s(r["term"]) for r in after]})
                 ltis = {r["lti"] for r in after if r["lti"] is not None}
                 ok2 = bool(tys) and all(r["index"] is not None and r["index"] in ltis for r in tys)
